@@ -126,7 +126,13 @@ def r1_table(ctx):
                 if html == 0:
                     ctx.ob("R2", "key_only[xml]", describe_ret(r, 3)[0][:3] == ("Some", "Err", "ExpectedEq") and r[3][0][3][0][3][0][0] == "arg", "XML mode: a key without '=' is ExpectedEq(offset)", config=cfg)
                 else:
-                    ctx.ob("R2", "key_only[html]", has_subterm(r, lambda s: call_is(s, "check_for_duplicates")) and has_subterm(r, lambda s: s[0] == "fn" and "Empty" in s[1] or (s[0] == "c" and "Empty" in str(s[2]))), "HTML mode: Attr::Empty(key) after the duplicate check", config=cfg)
+                    dup = decision_on(p, lambda t: t[0] == "discr" and call_is(t[1], "check_for_duplicates"))
+                    checked = any(name_is(c[2], "check_for_duplicates") for c in calls(p))
+                    is_empty = has_subterm(r, lambda s: (s[0] == "fn" and "Empty" in s[1]) or (s[0] == "c" and "Empty" in str(s[2])) or (s[0] == "agg" and s[2] == "Empty") or (s[0] == "call" and isinstance(s[2], str) and s[2].endswith("::Empty")))
+                    if dup == 1:
+                        ctx.ob("R2", "key_only[html:duplicate]", checked and describe_ret(r, 1)[0][:2] == ("Some", "Err") and has_subterm(r, lambda s: call_is(s, "check_for_duplicates")), "HTML mode: the duplicate check's error is the item", config=cfg)
+                    else:
+                        ctx.ob("R2", "key_only[html]", checked and is_empty and (dup == 0 or has_subterm(r, lambda s: call_is(s, "check_for_duplicates"))), "HTML mode: Attr::Empty(key) after the duplicate check", config=cfg)
 
 
 def r3_duplicates(ctx):
